@@ -530,7 +530,8 @@ def total_cases(rng, pools, tier):
         # `>>>` combined with `<<<`
         add("I:wrap_and_unwrap", b0.initial + " |> >>> |> f <<< >>> |> g", cfgs)
         # non-identifier `let` pattern
-        pat = rng.choice(["(a, b)", "S { a }", "Some(x)", "[a, b]", "_"])
+        # (keywords: syn takes any word for the name of an identifier pattern — fixed finding: `let mut move = ..`)
+        pat = rng.choice(["(a, b)", "S { a }", "Some(x)", "[a, b]", "_", "move", "mut fn", "type", "mut match", "self", "ref mut loop"])
         add("I:let_pattern", "let %s = %s |> f" % (pat, b0.initial), cfgs)
         # a `~` that defers nothing: in front of a `,`, of a handler, at the end (fixed finding 675249b: used to be dropped)
         tail_b = g.branch(2).render(lambda: " ")
